@@ -1216,7 +1216,15 @@ def check_c04(idx: Index, tier: str, res: Result) -> None:
     if len(exprs) != 1:
         raise AnalysisError("StockExpressions: the stock expression literal was not found")
     ir = _ir_from_literal(exprs[0].value, {})
-    probes = {"sum": "NET", "entity_equation_parsed": "INIT"}
+    # the net-flow variable: the plain name handed to PREVIOUS(...) inside the stock literal (whatever it is called)
+    netvar = "sum"
+    for d_ in ast.walk(exprs[0].value):
+        if isinstance(d_, ast.Dict):
+            m_ = {const_str(k): v for k, v in zip(d_.keys, d_.values)}
+            if const_str(m_.get("name", ast.Constant(0))) == "PREVIOUS" and isinstance(m_.get("args"), ast.List) and len(m_["args"].elts) == 1 \
+                    and isinstance(m_["args"].elts[0], ast.Name):
+                netvar = m_["args"].elts[0].id
+    probes = {netvar: "NET", "entity_equation_parsed": "INIT"}
     tree = ast.fix_missing_locations(_ir_tree_calls(ir, probes))
     want = "f_if(f_time() <= f_starttime(), INIT, f_previous(SELF) + f_dt() * f_previous(NET))"
     got = nf(tree)
@@ -1235,7 +1243,7 @@ def check_c04(idx: Index, tier: str, res: Result) -> None:
     res.check("EULER", "PREVIOUS(self) refers to the stock itself", ok, sx.loc(), sx.qual, src(selfref[0])[:80] if selfref else "",
               "the previous value is read from %s" % (src(selfref[0])[:60] if selfref else "?"), key="EULER/StockExpressions/self")
     # net-flow forms
-    sums = [n for n in walk_no_nested(sx.node) if isinstance(n, ast.Assign) and src(n.targets[0]) == "sum"]
+    sums = [n for n in walk_no_nested(sx.node) if isinstance(n, ast.Assign) and src(n.targets[0]) == netvar]
     forms = []
     flow_probes = {"inflows": "i1 + i2", "outflows": "o1 + o2"}
     for n in sums:
